@@ -131,8 +131,45 @@ impl<'a> LuaGen<'a> {
         }
         out
     }
+    /// a static-table local handed to library calls at varying argument positions (the `observes: write`
+    /// analysis of unused_variable / `process_function_call_finish` looks at the position of each argument)
+    fn static_table_stmts(&mut self, i: &str) -> String {
+        self.bump("static_table_call");
+        let n = self.local_name();
+        let ctor = *self.r.pick(&["{}", "{ 1, 2 }", "{ x = 1 }"]);
+        let mut out = format!("{i}local {n} = {ctor}\n");
+        let calls = 1 + self.r.below(2);
+        for _ in 0..calls {
+            let callee = *self.r.pick(&["table.insert", "table.insert", "table.remove", "table.sort", "rawset", "print", "G.f"]);
+            let argc = 1 + self.r.below(3);
+            let pos = self.r.below(argc);
+            let args: Vec<String> = (0..argc)
+                .map(|k| {
+                    if k == pos {
+                        n.clone()
+                    } else {
+                        match self.r.below(5) {
+                            0 => self.name(),
+                            1 => format!("{}.{}", self.name(), self.r.pick(&["f", "items"])),
+                            2 => "1".to_owned(),
+                            3 => format!("{}()", self.name()),
+                            _ => "\"s\"".to_owned(),
+                        }
+                    }
+                })
+                .collect();
+            out.push_str(&format!("{i}{callee}({})\n", args.join(", ")));
+        }
+        if self.r.chance(1, 4) {
+            out.push_str(&format!("{i}print({n})\n"));
+        }
+        out
+    }
     pub fn stmt(&mut self, depth: usize, ind: usize) -> String {
         let i = Self::indent(ind);
+        if self.r.chance(1, 14) {
+            return self.static_table_stmts(&i);
+        }
         let k = if depth == 0 { self.r.below(8) } else { self.r.below(20) };
         match k {
             0 | 1 | 2 => {
